@@ -60,7 +60,7 @@ macro_rules! vgraph {
             let nodes = vec![$( NodeInfo { name: $tag, kind: $kind } ),*];
             let mut unc: Vec<Vec<Option<F3<$V>>>> = vec![];
             vgraph!(@rows $V, unc, [ $( $vty ),* ], [ $( $vty ),* ]);
-            Graph { name: "D65-core", float: stringify!($V), nodes, unc, clamped: vec![], tryc: vec![], aa: vec![], pa: vec![], ap: vec![], clamp: vec![] }
+            Graph { name: "D65-core", float: stringify!($V), nodes, unc, clamped: vec![], tryc: vec![], aa: vec![], pa: vec![], ap: vec![], clamp: vec![], wa: vec![], buf: vec![] }
         }
     };
     (@rows $V:ty, $unc:ident, [ $( $from:ty ),* ], $tos:tt) => {
